@@ -89,6 +89,7 @@ type PathState struct {
 	inconclusive []string
 	mayPanicDepth int
 	eventsOff bool
+	sites     map[*mergeSite]*siteStat
 }
 
 type task struct {
@@ -296,7 +297,7 @@ func (wk *Worker) record(h int, res PathResult) {
 func (wk *Worker) runPath(t task) (res PathResult) {
 	it := wk.it
 	fn := wk.ex.harness[t.h]
-	ps := &PathState{harness: fn.Name(), prefix: t.prefix, domains: map[int]*bset{}, entangled: map[int]bool{}, symW: map[int]uint8{}, vioSeen: map[string]bool{}}
+	ps := &PathState{harness: fn.Name(), prefix: t.prefix, domains: map[int]*bset{}, entangled: map[int]bool{}, symW: map[int]uint8{}, vioSeen: map[string]bool{}, sites: map[*mergeSite]*siteStat{}}
 	it.ps = ps
 	wk.curH = t.h
 	it.epoch++
@@ -473,6 +474,9 @@ func (it *Interp) branch(fr *frame, c *Term) bool {
 			exact = !ps.entangled[int(c.sv)]
 		}
 	}
+	if it.spec > 0 {
+		panic(specFail{"fork"})
+	}
 	k := len(ps.trace)
 	if k >= it.w.cfg.MaxDecisions {
 		it.abort("limit", fmt.Sprintf("more than %d decisions on one path at %s", k, it.stackString(fr)))
@@ -522,6 +526,9 @@ func (wk *Worker) harnessIndex() int { return wk.curH }
 
 // choice is an n-way nondeterministic choice (all outcomes feasible).
 func (it *Interp) choice(fr *frame, n int, record bool) int {
+	if it.spec > 0 {
+		panic(specFail{"choice"})
+	}
 	ps := it.ps
 	wk := it.w
 	if n <= 1 {
@@ -558,6 +565,9 @@ func (it *Interp) choice(fr *frame, n int, record bool) int {
 
 // assume adds c to the path condition, ending the path if it is infeasible.
 func (it *Interp) assume(fr *frame, c *Term) {
+	if it.spec > 0 {
+		panic(specFail{"assume"})
+	}
 	if c.op == OpConst {
 		if c.c == 0 {
 			it.abort("infeasible", "assumption false")
@@ -598,6 +608,9 @@ func (it *Interp) assume(fr *frame, c *Term) {
 
 // check handles vpAssert: records a violation if not c is feasible, then continues under c.
 func (it *Interp) check(fr *frame, id string, c *Term) {
+	if it.spec > 0 {
+		panic(specFail{"assert"})
+	}
 	wk := it.w
 	ps := it.ps
 	ps.asserts = append(ps.asserts, assertRec{id, c})
@@ -784,6 +797,9 @@ func (wk *Worker) addViolation(fr *frame, id, kind, detail string, tape []Draw) 
 func (it *Interp) event(fr *frame, kind, detail string) {
 	if it.ps == nil {
 		return
+	}
+	if it.spec > 0 {
+		panic(specFail{"event"})
 	}
 	if it.ps.eventsOff {
 		return
